@@ -501,8 +501,11 @@ impl C16 {
                         AxisType::Col => (i, aidx as usize),
                     };
                     let s = &mut raw_sq[r * w + c];
-                    let rnd = rng.bytes(512 - 64);
-                    s[64..].copy_from_slice(&rnd);
+                    // data shares keep their namespace; parity shares are trashed completely, so that the data
+                    // reconstructed from them does not even start with a valid namespace
+                    let from = if r < w / 2 && c < w / 2 { 64 } else { 0 };
+                    let rnd = rng.bytes(512 - from);
+                    s[from..].copy_from_slice(&rnd);
                 }
             }
             let Ok(ceds) = ExtendedDataSquare::new(raw_sq, "Leopard".into(), app()) else { continue };
